@@ -18,7 +18,7 @@ struct LDelivery {
   int pid = 0; Sink *out = nullptr; bool exited = false; int status = -1;
   std::vector<LAction> actions;
   std::vector<std::string> new_files;    // maildir entries published by this delivery (canonical paths)
-  bool fault_hit = false; bool qmail_read_fault = false; bool chdir_fault = false;
+  bool fault_hit = false; bool qmail_read_fault = false; bool chdir_fault = false; bool fork_fault = false;
   std::string user() const { return args[0]; } std::string home() const { return args[1]; } std::string local() const { return args[2]; }
   std::string dash() const { return args[3]; } std::string ext() const { return args[4]; } std::string host() const { return args[5]; }
   std::string sender() const { return args[6]; } std::string aliasempty() const { return args[7]; }
@@ -164,6 +164,7 @@ struct WorldL : World {
     LDelivery *d = owner(p); if (!d) return;
     if (e.injected) d->fault_hit = true;
     if (e.injected && e.call == C_CHDIR) d->chdir_fault = true;
+    if (e.injected && (e.call == C_FORK || e.call == C_PIPE) && e.proc && e.proc->role == "qmail-local") d->fork_fault = true;
     if (e.injected && e.call == C_READ && e.path.find("/.qmail") != std::string::npos) d->qmail_read_fault = true;
     bool is_child = p->role == "qmail-local/child";
     if (p->role == "qmail-local" && e.call == C_EXIT && e.pid == d->pid) { d->exited = true; d->status = (int)e.a; on_delivery_exit(d); return; }
@@ -307,6 +308,16 @@ struct WorldL : World {
     if (c13 && d->qmail_read_fault && !had_crash) {
       res->nontrivial = true; k->probe("dotqmail_read_error");
       if (sig || code != 111 || !d->actions.empty()) { std::string acts; for (auto &a : d->actions) acts += a.kind + "(" + printable(a.arg, 30) + ") "; violate("C13.read-error-not-deferred", d->id + ": reading the .qmail file failed, qmail-local exited " + std::to_string(code) + " after { " + acts + "}; expected a temporary failure with nothing executed"); return; }
+    }
+    // no process (or no pipe) for an instruction that needs one: the delivery is deferred at that instruction - what ran before it ran as
+    // documented, nothing after it runs, and it is not reported as done
+    if (c13 && d->fork_fault && !had_crash) {
+      RefResult R = ref_interpret(d); res->nontrivial = true; k->probe("fork_failure_in_delivery");
+      if (!R.indeterminate) {
+        if (sig || code != 111) { violate("C13.fork-failure-not-deferred", d->id + ": fork or pipe failed inside qmail-local, which exited " + std::to_string(code) + " (\"" + printable(d->out->data, 80) + "\") after " + std::to_string(d->actions.size()) + " actions"); return; }
+        bool prefix = d->actions.size() <= R.actions.size(); for (size_t q = 0; prefix && q < d->actions.size(); q++) if (d->actions[q].kind != R.actions[q].kind) prefix = false;
+        if (!prefix) { violate("C13.instruction-sequence", d->id + ": after a failing fork the executed instructions are not a prefix of the documented sequence"); return; }
+      }
     }
     // the home directory could not be entered (file server away, permissions): temporary failure, nothing acted on
     if (c13 && d->chdir_fault && !had_crash) { res->nontrivial = true; k->probe("home_unreachable"); if (sig || code != 111 || !d->actions.empty()) { violate("C13.home-unreachable-not-deferred", d->id + ": chdir to the home directory failed, qmail-local exited " + std::to_string(code) + " after " + std::to_string(d->actions.size()) + " actions"); return; } }
